@@ -699,9 +699,14 @@ int ILLsymboltab_uname (
 	}
 	if (!found)
 	{
-		i = 0;
 		sprintf (prefix, "%s", try_prefix[0]);
-		numlen = (log10 ((double) (symtab->tablesize - 1) * 10)) + 1;
+		/* room for '_' and the decimal digits of the largest suffix tried (at
+		 * most nvars); counted in integers: log10 of a table with a single entry
+		 * was log10 (0) */
+		numlen = 2;
+		for (i = nvars; i >= 10; i /= 10)
+			numlen++;
+		i = 0;
 		while (!found)
 		{
 			ILL_FAILfalse (i <= nvars, "something wrong in find_unique_name");
